@@ -143,7 +143,7 @@ _ALL = {
              'identity is pid+tid on both sides and release asserts ownership (O1, O2); context-manager forms and '
              'barrier use acquire/release (O3); add/delete underneath are atomic (L2).',
              'Mutual exclusion over all interleavings follows from these only under A2; it is not model-checked here.'),
-    'C16': P(['M1', 'M2', 'M3', 'M4', 'M5', ('O5', r'memoize_stampede'), ('B2', r'Cache\.get/'), ('S6', r'memoize')],
+    'C16': P(['M1', 'M2', 'M3', 'M4', 'M5', ('O5', r'memoize_stampede'), ('S8', r'memoize'), ('B2', r'Cache\.get/'), ('S6', r'memoize')],
              'concatenation-grammar reading of the key builder + wrapper dataflow (same key looked up and stored)',
              'Decides that the key builder separates positional from keyword segments by a delimiter no argument value '
              'can equal (M1 - violated: the delimiter is None, known finding); typed/ignore are applied to every kept '
@@ -173,7 +173,7 @@ _ALL = {
              'default marker, None and 0 correctly (D2); incr raises ValueError for a missing key, decr negates (D3); '
              'arguments are passed in the right positions (S6); no data method lets Timeout escape (R2, R3).',
              'The Django contract over call histories (versions x timeouts under a clock) needs execution.'),
-    'C20': P([('L3', r'Averager|throttle'), 'L4', 'O4', ('O5', r'Averager|throttle')],
+    'C20': P([('L3', r'Averager|throttle'), 'L4', 'O4', ('O5', r'Averager|throttle'), 'O6'],
              'transaction-block containment + branch-shape check of the token bucket',
              'Does NOT decide the numeric rate bound. Decides: Averager.add reads and writes inside one retrying block '
              'and pop is one atomic pop (L3); the throttle spends exactly one token inside the block or computes a '
